@@ -1,5 +1,6 @@
 import WebPkg.Proofs.SxgRoundTrip
 import WebPkg.Proofs.SxgSpec
+import WebPkg.Proofs.SxgInvariant
 /-
   C02 — Signed exchange survives sign → write → read → verify unchanged.
   Model: Model/Sxg.lean `write` / `read` (signedexchange.go after fix F1), Model/BigEndian.lean.
@@ -27,6 +28,42 @@ theorem write_fails_iff (e : Exchange) : (∃ err, write e = .error err) ↔
       (if e.version = .b1 then (2 ^ 24 ≤ e.sigHeader.length ∨ 2 ^ 24 ≤ hdr.length)
        else (2 ^ 16 ≤ e.uri.length ∨ 16384 < e.sigHeader.length ∨ 524288 < hdr.length))) :=
   Sxg.write_fails_iff e
+
+/-- T3: the verdict (and the payload handed back) is the same before and after a write/read round trip, at
+    every time: `verify` depends on the exchange only through what survives the round trip. Requires the
+    header map to be as Go's `Header.Add/Set` builds it (canonical, distinct names). This theorem was false
+    before fix F13 (two-valued Cache-Control: public / no-store). -/
+theorem verify_invariant (env : Env) (e : Exchange) (out : Bytes) (t : GoTime.T) (hd : Dom env.url e) (hw : write e = .ok out)
+    (hc1 : CanonKeys e.respHeaders)
+    (hb3 : e.version = .b3 → e.reqHeaders.any (fun kv => isStatefulRequestHeader kv.1) = false) :
+    ∃ e', read env.url out = .ok e' ∧ verify env e' t = verify env e t :=
+  verify_read_write env e out t hd hw hc1 hb3
+
+/-- T4: an exchange signed by the library (MI-encode the payload with any record size 1..16384, add the
+    Signature header for the signature bytes `sig` the signing algorithm returned) verifies at every `t`
+    accepted by the window test and returns the original un-encoded payload — given that `sig` verifies under
+    the leaf certificate's key over the message (hypothesis `hsv`: that is what "the signing algorithm is
+    correct" means), that the certificate is what cert-url serves, same-origin URLs and the acceptance policy.
+    Since fix F14 no assumption on pre-existing digest headers is needed. -/
+theorem honest_verifies (env : Env) (hlen : ∀ x, (env.H x).length = 32)
+    (e0 e1 e2 : Exchange) (rs : Nat) (hrs : 1 ≤ rs) (hrs2 : rs ≤ 16384)
+    (sig validityUrl certUrl certBytes : Bytes) (main : CertChain.AugCert) (rest : List CertChain.AugCert)
+    (date expires : Int) (t : GoTime.T) (msg : Bytes)
+    (hmi : miEncodePayload env.H e0 rs = some e1)
+    (hmsg : signedMessage e1 (some (env.H main.cert)) validityUrl date expires = some msg)
+    (hsign : addSignatureHeader e1 sig validityUrl certUrl (env.H main.cert) date expires = some e2)
+    (hfetch : env.fetch certUrl = some certBytes) (hchain : CertChain.read env.parseOk certBytes = some (main :: rest))
+    (hkey : env.keyOk main.cert = true) (hsv : env.sigVerify main.cert msg sig = true)
+    (hurl : ∃ vu ru, env.url validityUrl = some vu ∧ env.url e0.uri = some ru ∧ sameOrigin vu ru = true)
+    (htime : timestampsOk
+        { label := kLabel, sig := sig, integrity := e0.version.mice.integrityIdentifier, certUrl := certUrl,
+          certSha256 := env.H main.cert, validityUrl := validityUrl, date := date, expires := expires } t = true)
+    (hint : -(2:Int)^63 ≤ date ∧ date < (2:Int)^63 ∧ -(2:Int)^63 ≤ expires ∧ expires < (2:Int)^63)
+    (hpolicy : headersOk e1 = true ∧ ((e0.version = .b1 ∨ e0.version = .b2) → (e0.method = mGET ∨ e0.method = mHEAD)) ∧
+       (e0.version = .b3 → isCacheable env e1 = true ∧ joined e1.respHeaders hContentType ≠ [])) :
+    verify env e2 t = some e0.payload :=
+  honest_verifies_f14 env hlen e0 e1 e2 rs hrs hrs2 sig validityUrl certUrl certBytes main rest date expires t msg
+    hmi hmsg hsign hfetch hchain hkey hsv hurl htime hint hpolicy
 
 /-- T5: fixed-width big-endian fields: `EncodeBytesUint n size` succeeds iff `0 ≤ n < 2^(8·size)` (size < 7)
     and `Decode3BytesUint` inverts the 3-byte form. -/
